@@ -295,6 +295,13 @@ def compare_ops(test):
     return res
 
 
+def conj_compare_ops(test):
+    """compare_ops over the conjuncts of `a and b and ...` (a chained comparison and its split form read the same)"""
+    if isinstance(test, ast.BoolOp) and isinstance(test.op, ast.And):
+        return [t for v in test.values for t in conj_compare_ops(v)]
+    return compare_ops(test)
+
+
 _FLIP = {'<': '>', '<=': '>=', '>': '<', '>=': '<=', '==': '==', '!=': '!='}
 _NEG = {'<': '>=', '<=': '>', '>': '<=', '>=': '<', '==': '!=', '!=': '==', 'in': 'notin', 'notin': 'in',
         'is': 'isnot', 'isnot': 'is'}
@@ -701,6 +708,48 @@ def sides_with_fact(cfg, pred):
                 off = cfg.reach([t.id], labels={'F' if label == 'T' else 'T'}, avoid=[t.id])
                 res |= (on - off)
     return res
+
+
+def paths_need_fact(cfg, src_ids, dst_ids, pred, avoid=(), exc=False):
+    """every path from a source node to a destination node (not entering `avoid`) leaves some test on an edge that establishes
+    a fact accepted by pred(atom, truth) - e.g. the raw result of do() reaches the return only where `<cmd>.result` is falsy"""
+    avoid = set(avoid)
+    dst = set(dst_ids)
+    seen, stack = set(), list(src_ids)
+    while stack:
+        n = stack.pop()
+        if n in seen:
+            continue
+        seen.add(n)
+        t = cfg.nodes[n]
+        for b, lab in cfg.succ[n]:
+            if (lab == 'exc' and not exc) or b in avoid:
+                continue
+            if t.kind == 'test' and lab in ('T', 'F') and not isinstance(t.ast, ast.stmt) and \
+                    any(pred(a, tv) for a, tv in facts_on_side(t.ast, lab == 'T')):
+                continue        # this edge establishes the fact: paths through it are fine
+            if b in dst:
+                return False
+            stack.append(b)
+    return True
+
+
+def resolved(expr, funcnode, depth=4):
+    """copy of expr in which every local that is bound exactly once in funcnode (a plain assignment) is replaced by the
+    expression it was bound to: `frame = x.encode(); return frame + EOL` reads as `x.encode() + EOL`"""
+    from sa.model import _clone_ast
+
+    class Sub(ast.NodeTransformer):
+        def __init__(self, d):
+            self.d = d
+
+        def visit_Name(self, node):
+            if isinstance(node.ctx, ast.Load) and self.d > 0:
+                las = local_assigns(funcnode, node.id)
+                if len(las) == 1 and las[0][2] == 'assign' and las[0][0] is not None:
+                    return Sub(self.d - 1).visit(_clone_ast(las[0][0]))
+            return node
+    return Sub(depth).visit(_clone_ast(expr))
 
 
 # every public helper of this module is available through `from sa.lib import *`
